@@ -1,3 +1,5 @@
+//go:build hnum
+
 package main
 
 // C10: exact decimal arithmetic. Plumbing: run NewNumber/Cmp/String/LengthOfFractionalPart (overlay hook
